@@ -47,6 +47,7 @@ struct Stats {
     std::vector<json> samples;
     std::vector<std::string> exhaustive;
     std::vector<std::string> notes;
+    std::map<std::string, uint64_t> digests;
     bool shrinking = false;
 };
 Stats & stats()
@@ -125,6 +126,17 @@ void record_bulk(const std::string & inst, uint64_t evaluations, uint64_t distin
     s.per_inst_nontrivial[inst] += distinct_nontrivial;
 }
 
+void digest(const std::string & inst, const void * p, size_t n)
+{
+    Stats & s = stats();
+    if (s.shrinking) {
+        return;
+    }
+    auto it = s.digests.find(inst);
+    uint64_t h = it == s.digests.end() ? 1469598103934665603ULL : it->second;
+    s.digests[inst] = fnv(p, n, h);
+}
+
 void write_stats()
 {
     if (opt().out.empty()) {
@@ -141,6 +153,11 @@ void write_stats()
     j["samples"] = s.samples;
     j["exhaustive"] = s.exhaustive;
     j["notes"] = s.notes;
+    json dg = json::object();
+    for (auto & kv : s.digests) {
+        dg[kv.first] = bits_hex_u64(kv.second, 8);
+    }
+    j["digests"] = dg;
     std::ofstream f(opt().out);
     f << j.dump(1) << "\n";
 }
